@@ -253,7 +253,7 @@ Qed.
 (* ---- extract_element on a well-formed field ---------------------------------------------- *)
 
 Lemma ee_val_run : forall v p more ii rtag rval,
-  Forall (fun b => nosoh b = true) v -> length rval + length v <= p_valcap p ->
+  Forall (fun b => nosoh b = true) v -> length rval + length v < p_valcap p ->
   ee_val p (v ++ SOH :: more) ii rtag rval = ee_term p (S (ii + length v)) rtag (rev v ++ rval).
 Proof.
   induction v as [|b v IH]; intros p more ii rtag rval Hv L.
@@ -262,13 +262,14 @@ Proof.
     cbn [app ee_val length]. unfold nosoh in Hb.
     destruct (b =? SOH)%N; [discriminate|].
     cbn [length] in L.
+    destruct (length rval =? p_valcap p - 1) eqn:E0; [apply Nat.eqb_eq in E0; lia|].
     destruct (p_valcap p <=? length rval) eqn:E; [apply Nat.leb_le in E; lia|].
     rewrite IH; [|assumption|cbn [length]; lia].
     cbn [rev]. rewrite <- app_assoc. cbn [app]. f_equal. lia.
 Qed.
 
 Lemma ee_tag_run : forall t p r ii rtag,
-  Forall (fun b => isdigit b = true) t -> length rtag + length t <= p_tagcap p ->
+  Forall (fun b => isdigit b = true) t -> length rtag + length t < p_tagcap p ->
   ee_tag p (t ++ EQS :: r) ii rtag = ee_val p r (S (ii + length t)) (rev t ++ rtag) [].
 Proof.
   induction t as [|b t IH]; intros p r ii rtag Ht L.
@@ -276,6 +277,7 @@ Proof.
     rewrite Nat.add_0_r. reflexivity.
   - inversion Ht as [|? ? Hb Ht']; subst.
     cbn [app ee_tag length]. rewrite Hb. cbn [length] in L.
+    destruct (length rtag =? p_tagcap p - 1) eqn:E0; [apply Nat.eqb_eq in E0; lia|].
     destruct (p_tagcap p <=? length rtag) eqn:E; [apply Nat.leb_le in E; lia|].
     rewrite IH; [|assumption|cbn [length]; lia].
     cbn [rev]. rewrite <- app_assoc. cbn [app]. f_equal. lia.
@@ -413,10 +415,11 @@ Record shape (p : params) (m ds body trl : list N) : Prop := mk_shape {
   sh_dec : dec ds = N.of_nat (length body);
   sh_pos : 1 <= length body;
   sh_lim : (N.of_nat (length body) <= len_limit p)%N;
-  sh_trl : trailer_ok trl = true
+  sh_trl : trailer_ok trl = true;
+  sh_w : length ds <= max_width p
 }.
 
-Lemma valid_frame_shape : forall p m, valid_frame (p_begin p) (len_limit p) m = true ->
+Lemma valid_frame_shape : forall p m, valid_frame (p_begin p) (len_limit p) (max_width p) m = true ->
   exists ds body trl, shape p m ds body trl.
 Proof.
   intros p m H. unfold valid_frame, spec_frame in H.
@@ -424,6 +427,7 @@ Proof.
   2:{ destruct (is_prefix m (header (p_begin p))); discriminate. }
   apply strip_some in St.
   pose proof (take_drop_digits r) as TD. pose proof (take_digits_all r) as TA.
+  destruct (max_width p <? length (take_digits r)) eqn:Ew; [discriminate|]. apply Nat.ltb_ge in Ew.
   destruct (drop_digits r) as [|c more] eqn:Dr; [discriminate|].
   destruct (c =? sp_soh)%N eqn:Ec; cbn [negb] in H; [|discriminate].
   apply N.eqb_eq in Ec. subst c.
@@ -451,6 +455,7 @@ Proof.
   - rewrite Lb. subst k. rewrite N2Nat.id. exact El.
   - rewrite <- Et. f_equal.
     rewrite firstn_all2; [reflexivity|]. rewrite skipn_length. lia.
+  - exact Ew.
 Qed.
 
 (* ---- FIXReader::read on a well-formed preamble --------------------------------------------- *)
@@ -568,7 +573,7 @@ Lemma read_msg_valid : forall p s m ds body trl rest,
   exists s', concat s' = rest /\ read_msg p s = (OMsg m, s').
 Proof.
   intros p s m ds body trl rest W Sh Ld C.
-  destruct Sh as [Em Hne Hd Hdec Pos Lim Trl].
+  destruct Sh as [Em Hne Hd Hdec Pos Lim Trl Hw].
   pose proof (trailer_ok_length _ Trl) as Lt.
   assert (C' : concat s = header (p_begin p) ++ ds ++ [SOH] ++ (body ++ trl ++ rest)).
   { rewrite C, Em. rewrite <- !app_assoc. reflexivity. }
@@ -582,27 +587,21 @@ Proof.
   exists s4. split; [exact C4|]. rewrite R. rewrite Em. rewrite <- !app_assoc. reflexivity.
 Qed.
 
-(* the hypothesis of the exactness theorem, as a boolean: a valid frame whose BodyLength field
-   fits the val buffer (beyond that: overflow_refuted) *)
+(* the hypothesis of the exactness theorem, as a boolean: a valid frame for the oracle, with the
+   reader's limits (largest BodyLength, longest field value) as the oracle's parameters *)
 Definition frame_ok (p : params) (m : list N) : bool :=
-  valid_frame (p_begin p) (len_limit p) m && (bodylen_width (p_begin p) m <? p_valcap p).
-
-Lemma shape_width : forall p m ds body trl, shape p m ds body trl ->
-  bodylen_width (p_begin p) m = length ds.
-Proof.
-  intros p m ds body trl Sh. destruct Sh as [Em _ Hd _ _ _ _].
-  unfold bodylen_width. rewrite Em, strip_app.
-  destruct (take_drop_app ds SOH (body ++ trl) Hd eq_refl) as [E _].
-  cbn [app]. rewrite E. reflexivity.
-Qed.
+  valid_frame (p_begin p) (len_limit p) (max_width p) m.
 
 Lemma frame_ok_shape : forall p m, frame_ok p m = true ->
-  exists ds body trl, shape p m ds body trl /\ length ds < p_valcap p.
+  exists ds body trl, shape p m ds body trl /\ length ds <= max_width p.
 Proof.
-  intros p m H. unfold frame_ok in H. apply andb_true_iff in H. destruct H as [V L].
-  destruct (valid_frame_shape p m V) as (ds & body & trl & Sh).
-  exists ds, body, trl. split; [exact Sh|].
-  rewrite (shape_width _ _ _ _ _ Sh) in L. apply Nat.ltb_lt, L.
+  intros p m H. destruct (valid_frame_shape p m H) as (ds & body & trl & Sh).
+  exists ds, body, trl. split; [exact Sh | exact (sh_w _ _ _ _ _ Sh)].
+Qed.
+
+Lemma width_lt : forall p n, wf_params p = true -> n <= max_width p -> n < p_valcap p.
+Proof.
+  intros p n W H. destruct (wf_inv p W) as (_ & _ & _ & Bl & _). unfold max_width in H. lia.
 Qed.
 
 Lemma read_all_valid : forall p msgs s rest fuel,
@@ -615,7 +614,8 @@ Proof.
   - exists s. split; [exact C|]. cbn [length app]. rewrite Nat.sub_0_r.
     destruct (read_all fuel p s). reflexivity.
   - inversion Hv as [|? ? Hm Hv']; subst.
-    destruct (frame_ok_shape p m Hm) as (ds & body & trl & Sh & Ld).
+    destruct (frame_ok_shape p m Hm) as (ds & body & trl & Sh & Ld0).
+    pose proof (width_lt p _ W Ld0) as Ld.
     cbn [concat] in C. rewrite <- app_assoc in C.
     destruct (read_msg_valid p s m ds body trl _ W Sh Ld C) as [s1 [C1 R1]].
     cbn [length] in Lf. destruct fuel as [|f]; [lia|].
@@ -633,7 +633,7 @@ Qed.
 
 Lemma shape_nonempty : forall p m ds body trl, shape p m ds body trl -> 1 <= length m.
 Proof.
-  intros p m ds body trl Sh. destruct Sh as [Em _ _ _ _ _ _]. rewrite Em, app_length, header_length. lia.
+  intros p m ds body trl Sh. destruct Sh as [Em _ _ _ _ _ _ _]. rewrite Em, app_length, header_length. lia.
 Qed.
 
 Lemma concat_length_ge : forall p msgs, Forall (fun m => frame_ok p m = true) msgs ->
@@ -663,16 +663,18 @@ Qed.
 (* ---- the oracle on streams of valid frames ------------------------------------------------- *)
 
 Lemma spec_frame_app : forall p m ds body trl rest, shape p m ds body trl ->
-  spec_frame (p_begin p) (len_limit p) (m ++ rest) = FFrame m rest.
+  spec_frame (p_begin p) (len_limit p) (max_width p) (m ++ rest) = FFrame m rest.
 Proof.
-  intros p m ds body trl rest Sh. destruct Sh as [Em Hne Hd Hdec Pos Lim Trl].
+  intros p m ds body trl rest Sh. destruct Sh as [Em Hne Hd Hdec Pos Lim Trl Hw].
   pose proof (trailer_ok_length _ Trl) as Lt.
   unfold spec_frame.
   assert (E : m ++ rest = header (p_begin p) ++ (ds ++ SOH :: (body ++ trl ++ rest))).
   { rewrite Em. rewrite <- !app_assoc. reflexivity. }
   rewrite E, strip_app.
   destruct (take_drop_app ds SOH (body ++ trl ++ rest) Hd eq_refl) as [E1 E2].
-  rewrite E1, E2. change (SOH =? sp_soh)%N with true. cbn [negb].
+  rewrite E1, E2.
+  destruct (max_width p <? length ds) eqn:Ew; [apply Nat.ltb_lt in Ew; lia|].
+  change (SOH =? sp_soh)%N with true. cbn [negb].
   destruct ds as [|d ds0]; [congruence|]. set (ds := d :: ds0) in *.
   rewrite Hdec.
   destruct (N.of_nat (length body) =? 0)%N eqn:E0; [apply N.eqb_eq in E0; lia|].
@@ -695,7 +697,7 @@ Qed.
 
 Lemma spec_parse_valid : forall p msgs fuel,
   Forall (fun m => frame_ok p m = true) msgs -> length (concat msgs) <= fuel ->
-  spec_parse fuel (p_begin p) (len_limit p) (concat msgs) = (msgs, TClean).
+  spec_parse fuel (p_begin p) (len_limit p) (max_width p) (concat msgs) = (msgs, TClean).
 Proof.
   intros p msgs. induction msgs as [|m msgs IH]; intros fuel Hv L.
   - cbn. destruct fuel; reflexivity.
@@ -729,7 +731,7 @@ Definition rd_of (e : ending) : rd_end :=
 (* the oracle applied to a model run *)
 Definition model_ok (p : params) (chunks : sock) (closed : bool) : bool :=
   let (d, e) := run p chunks closed in
-  c15_ok (p_begin p) (len_limit p) (concat chunks) closed d (rd_of e).
+  c15_ok (p_begin p) (len_limit p) (max_width p) (concat chunks) closed d (rd_of e).
 
 Lemma valid_streams_ok_lemma : forall p msgs chunks closed,
   wf_params p = true -> Forall (fun m => frame_ok p m = true) msgs ->
@@ -775,8 +777,8 @@ Qed.
 
 Lemma spec_parse_after_valid : forall p msgs rest fuel,
   Forall (fun m => frame_ok p m = true) msgs -> length (concat msgs) < fuel -> rest <> [] ->
-  spec_frame (p_begin p) (len_limit p) rest = FBad ->
-  spec_parse fuel (p_begin p) (len_limit p) (concat msgs ++ rest) = (msgs, TBad).
+  spec_frame (p_begin p) (len_limit p) (max_width p) rest = FBad ->
+  spec_parse fuel (p_begin p) (len_limit p) (max_width p) (concat msgs ++ rest) = (msgs, TBad).
 Proof.
   intros p msgs. induction msgs as [|m msgs IH]; intros rest fuel Hv L Hne Hb.
   - cbn [concat app]. destruct rest as [|x xs]; [congruence|].
@@ -797,7 +799,7 @@ Qed.
 Lemma bad_after_valid_ok : forall p msgs chunks rest closed,
   wf_params p = true -> Forall (fun m => frame_ok p m = true) msgs ->
   concat chunks = concat msgs ++ rest -> rest <> [] ->
-  spec_frame (p_begin p) (len_limit p) rest = FBad ->
+  spec_frame (p_begin p) (len_limit p) (max_width p) rest = FBad ->
   err_or_eos (fst (read_msg p [rest])) = true ->
   run p chunks closed = (msgs, ending_of (fst (read_msg p [rest])) closed) /\
   model_ok p chunks closed = true.
@@ -827,11 +829,13 @@ Qed.
 Lemma bad_bodylength_spec : forall p w tail,
   wf_params p = true -> w <> [] -> Forall (fun b => isdigit b = true) w ->
   ((dec w mod W32 =? 0) || (len_limit p <? dec w mod W32))%N = true ->
-  spec_frame (p_begin p) (len_limit p) (header (p_begin p) ++ w ++ [SOH] ++ tail) = FBad.
+  spec_frame (p_begin p) (len_limit p) (max_width p) (header (p_begin p) ++ w ++ [SOH] ++ tail) = FBad.
 Proof.
   intros p w tail W Hne Hd Hb. unfold spec_frame. rewrite strip_app.
   destruct (take_drop_app w SOH tail Hd eq_refl) as [E1 E2].
-  cbn [app]. rewrite E1, E2. change (SOH =? sp_soh)%N with true. cbn [negb].
+  cbn [app]. rewrite E1, E2.
+  destruct (max_width p <? length w); [reflexivity|].
+  change (SOH =? sp_soh)%N with true. cbn [negb].
   destruct w as [|d w0]; [congruence|]. set (w := d :: w0) in *.
   pose proof (len_limit_eq p W) as LE.
   destruct (wf_inv p W) as (_ & _ & _ & _ & _ & _ & M32).
@@ -920,14 +924,17 @@ Qed.
    (the first character c0 of the value may be anything but SOH) *)
 Lemma nonnumeric_spec : forall p c0 ds' c tail,
   nosoh c0 = true -> Forall (fun b => isdigit b = true) ds' -> isdigit c = false -> nosoh c = true ->
-  spec_frame (p_begin p) (len_limit p) (header (p_begin p) ++ [c0] ++ ds' ++ [c] ++ tail) = FBad.
+  spec_frame (p_begin p) (len_limit p) (max_width p) (header (p_begin p) ++ [c0] ++ ds' ++ [c] ++ tail) = FBad.
 Proof.
   intros p c0 ds' c tail H0 Hd Hc Hs. unfold spec_frame. rewrite strip_app.
   destruct (isdigit c0) eqn:D0.
   - destruct (take_drop_app (c0 :: ds') c tail) as [E1 E2]; [constructor; assumption | exact Hc|].
-    cbn [app] in *. rewrite E2. unfold nosoh, SOH in Hs. change sp_soh with 1%N.
+    cbn [app] in *. rewrite E2.
+    match goal with |- context [?a <? ?b] => destruct (a <? b); [reflexivity|] end.
+    unfold nosoh, SOH in Hs. change sp_soh with 1%N.
     destruct (c =? 1)%N; [discriminate|]. reflexivity.
   - cbn [app take_digits drop_digits]. change (sp_digit c0) with (isdigit c0). rewrite D0.
+    match goal with |- context [?a <? ?b] => destruct (a <? b); [reflexivity|] end.
     unfold nosoh, SOH in H0. change sp_soh with 1%N.
     destruct (c0 =? 1)%N; [discriminate|]. reflexivity.
 Qed.
@@ -1001,7 +1008,7 @@ Qed.
 
 Lemma bad_beginstring_spec : forall p v tail,
   wf_params p = true -> Forall (fun c => nosoh c = true) v -> v <> p_begin p ->
-  spec_frame (p_begin p) (len_limit p) ([56; 61]%N ++ v ++ [SOH] ++ tail) = FBad.
+  spec_frame (p_begin p) (len_limit p) (max_width p) ([56; 61]%N ++ v ++ [SOH] ++ tail) = FBad.
 Proof.
   intros p v tail W Hv Hne. destruct (wf_inv p W) as (Bs & _).
   unfold spec_frame.
@@ -1209,6 +1216,462 @@ Proof.
 Qed.
 
 (* ========================================================================================== *)
+(* D2. no out-of-bounds write, for every stream (extract_element as repaired by d48d8ce)       *)
+
+(* the only assumptions: the buffers exist and the constants do not wrap *)
+Definition safe_params (p : params) : bool :=
+  (1 <=? p_tagcap p) && (1 <=? p_valcap p) && (bg_sz p + 7 <=? p_max p) && (N.of_nat (p_max p) <? W64)%N.
+
+Lemma safe_inv : forall p, safe_params p = true ->
+  1 <= p_tagcap p /\ 1 <= p_valcap p /\ bg_sz p + 7 <= p_max p /\ (N.of_nat (p_max p) < W64)%N.
+Proof.
+  intros p H. unfold safe_params in H.
+  repeat (apply andb_true_iff in H; destruct H as [H ?]).
+  repeat split; try (apply Nat.leb_le; assumption). apply N.ltb_lt; assumption.
+Qed.
+
+Lemma wf_safe : forall p, wf_params p = true -> safe_params p = true.
+Proof.
+  intros p W. destruct (wf_inv p W) as (_ & _ & Tc & Bl & _ & Mx8 & M32).
+  unfold safe_params. repeat (apply andb_true_iff; split).
+  - apply Nat.leb_le; lia.
+  - apply Nat.leb_le; lia.
+  - apply Nat.leb_le; lia.
+  - apply N.ltb_lt. unfold W32, W64 in *. lia.
+Qed.
+
+Definition ee_ret (r : ee_res) : Prop := exists c t v, r = EERet c t v.
+
+Lemma ee_term_ret : forall p ret rtag rval,
+  length rtag < p_tagcap p -> length rval < p_valcap p -> ee_ret (ee_term p ret rtag rval).
+Proof.
+  intros p ret rtag rval Lt Lv. unfold ee_term.
+  destruct (p_tagcap p <=? length rtag) eqn:E1; [apply Nat.leb_le in E1; lia|].
+  destruct (p_valcap p <=? length rval) eqn:E2; [apply Nat.leb_le in E2; lia|].
+  do 3 eexists. reflexivity.
+Qed.
+
+Lemma ee_val_no_oob : forall from p ii rtag rval,
+  length rtag < p_tagcap p -> length rval < p_valcap p -> ee_ret (ee_val p from ii rtag rval).
+Proof.
+  induction from as [|b r IH]; intros p ii rtag rval Lt Lv; cbn [ee_val].
+  - apply ee_term_ret; assumption.
+  - destruct (b =? SOH)%N; [apply ee_term_ret; assumption|].
+    destruct (length rval =? p_valcap p - 1) eqn:E0; [apply ee_term_ret; assumption|].
+    apply Nat.eqb_neq in E0.
+    destruct (p_valcap p <=? length rval) eqn:E; [apply Nat.leb_le in E; lia|].
+    apply IH; [assumption | cbn [length]; lia].
+Qed.
+
+Lemma ee_tag_no_oob : forall from p ii rtag,
+  length rtag < p_tagcap p -> 1 <= p_valcap p -> ee_ret (ee_tag p from ii rtag).
+Proof.
+  induction from as [|b r IH]; intros p ii rtag Lt Lv; cbn [ee_tag].
+  - apply ee_term_ret; [assumption | cbn [length]; lia].
+  - destruct (isdigit b).
+    + destruct (length rtag =? p_tagcap p - 1) eqn:E0; [apply ee_term_ret; [assumption | cbn [length]; lia]|].
+      apply Nat.eqb_neq in E0.
+      destruct (p_tagcap p <=? length rtag) eqn:E; [apply Nat.leb_le in E; lia|].
+      apply IH; [cbn [length]; lia | assumption].
+    + destruct (b =? EQS)%N; [apply ee_val_no_oob; [assumption | cbn [length]; lia]|].
+      apply ee_term_ret; [assumption | cbn [length]; lia].
+Qed.
+
+Lemma extract_element_no_oob : forall p from, 1 <= p_tagcap p -> 1 <= p_valcap p ->
+  ee_ret (extract_element p from).
+Proof. intros p from Lt Lv. unfold extract_element. apply ee_tag_no_oob; [cbn [length]; lia | assumption]. Qed.
+
+Lemma len_limit_safe : forall p, safe_params p = true ->
+  len_limit p = N.of_nat (p_max p - bg_sz p - chksum_sz).
+Proof.
+  intros p W. destruct (safe_inv p W) as (_ & _ & Mx & M64).
+  unfold len_limit, chksum_sz in *.
+  replace (N.of_nat (p_max p) + W64 - N.of_nat (bg_sz p) - N.of_nat 7)%N
+    with (N.of_nat (p_max p - bg_sz p - 7) + 1 * W64)%N by lia.
+  rewrite N.mod_add by (unfold W64; discriminate).
+  apply N.mod_small. lia.
+Qed.
+
+Definition not_oob (o : outcome) : Prop := forall st, o <> OOob st.
+
+Lemma read_body_no_oob : forall p to mlen s, safe_params p = true -> not_oob (fst (read_body p to mlen s)).
+Proof.
+  intros p to mlen s W st. pose proof (len_limit_safe p W) as LE.
+  destruct (safe_inv p W) as (_ & _ & Mx & _).
+  unfold read_body.
+  destruct ((mlen =? 0)%N || (len_limit p <? mlen)%N) eqn:E; [cbn [fst]; discriminate|].
+  apply orb_false_iff in E. destruct E as [_ E]. apply N.ltb_ge in E. rewrite LE in E.
+  destruct (p_max p <? N.to_nat mlen + chksum_sz) eqn:E2.
+  { apply Nat.ltb_lt in E2. unfold chksum_sz in *. lia. }
+  destruct (sock_read (N.to_nat mlen) s) as [[body|] s3]; cbn [fst]; [|discriminate].
+  destruct (sock_read chksum_sz s3) as [[chk|] s4]; cbn [fst]; discriminate.
+Qed.
+
+Lemma read_fields_no_oob : forall p to s, safe_params p = true -> not_oob (fst (read_fields p to s)).
+Proof.
+  intros p to s W st. destruct (safe_inv p W) as (Lt & Lv & _ & _).
+  unfold read_fields.
+  destruct (extract_element_no_oob p to Lt Lv) as (r1 & tag1 & val1 & E1). rewrite E1.
+  destruct (r1 =? 0); [cbn [fst]; discriminate|].
+  destruct (negb (head_is tag1 56%N)); [cbn [fst]; discriminate|].
+  destruct (negb (list_eqb (cstr val1) (p_begin p))); [cbn [fst]; discriminate|].
+  destruct (extract_element_no_oob p (skipn r1 to) Lt Lv) as (r2 & tag2 & val2 & E2). rewrite E2.
+  destruct (r2 =? 0); [cbn [fst]; discriminate|].
+  destruct (negb (head_is tag2 57%N)); [cbn [fst]; discriminate|].
+  apply read_body_no_oob. exact W.
+Qed.
+
+Lemma read_msg_no_oob : forall p s, safe_params p = true -> not_oob (fst (read_msg p s)).
+Proof.
+  intros p s W st. destruct (safe_inv p W) as (_ & _ & Mx & _).
+  unfold read_msg.
+  destruct (sock_read (bg_sz p) s) as [[pre|] s1]; cbn [fst]; [|discriminate].
+  destruct (p_max p <? bg_sz p) eqn:E0; [apply Nat.ltb_lt in E0; lia|].
+  pose proof (pre_loop_shape (p_max p) p (rev pre) (bg_sz p) s1 ltac:(lia) ltac:(lia)) as Sh.
+  destruct (pre_loop (p_max p) p (rev pre) (bg_sz p) s1) as [r s2]. cbn [fst] in Sh.
+  destruct r as [to| |buf| |]; cbn [fst]; try discriminate; try contradiction.
+  apply read_fields_no_oob. exact W.
+Qed.
+
+Lemma read_all_no_oob : forall fuel p s, safe_params p = true -> not_oob (snd (read_all fuel p s)).
+Proof.
+  induction fuel as [|f IH]; intros p s W st; cbn [read_all]; [cbn [snd]; discriminate|].
+  pose proof (read_msg_no_oob p s W) as NO.
+  destruct (read_msg p s) as [o s']. cbn [fst] in NO.
+  destruct o; cbn [snd]; try discriminate.
+  - specialize (IH p s' W st). destruct (read_all f p s'). cbn [snd] in *. exact IH.
+  - apply NO.
+Qed.
+
+Lemma no_oob_lemma : forall p chunks closed, safe_params p = true -> snd (run p chunks closed) <> EOob.
+Proof.
+  intros p chunks closed W. unfold run.
+  pose proof (read_all_no_oob (S (total chunks)) p chunks W) as NO.
+  destruct (read_all (S (total chunks)) p chunks) as [d o]. cbn [snd] in *.
+  destruct o; cbn [ending_of]; try discriminate.
+  - destruct closed; discriminate.
+  - exfalso. eapply NO. reflexivity.
+Qed.
+
+(* ========================================================================================== *)
+(* D3. over-long tags and values in the preamble: IllegalMessage, nothing handed on            *)
+
+Lemma sock_read_some : forall n s bs s', sock_read n s = (Some bs, s') -> concat s = bs ++ concat s'.
+Proof.
+  intros n s bs s' H.
+  destruct (le_lt_dec n (length (concat s))) as [L|L].
+  - destruct (sockread_chunking_lemma s n L) as [r [E C]]. rewrite E in H. injection H as <- <-.
+    rewrite C. symmetry. apply firstn_skipn.
+  - rewrite (sock_read_short s n L) in H. discriminate.
+Qed.
+
+(* when the preamble loop completes: what it appended is a run of digits and one last byte taken
+   from the stream; it stopped at SOH or because msg_buf is full *)
+Lemma pre_loop_done_inv : forall fuel p racc offs s to s',
+  pre_loop fuel p racc offs s = (PDone to, s') -> offs < p_max p ->
+  exists y l, to = rev racc ++ y ++ [l] /\ concat s = y ++ l :: concat s' /\
+              Forall (fun b => isdigit b = true) y /\ (l = SOH \/ offs + length y + 1 = p_max p).
+Proof.
+  induction fuel as [|f IH]; intros p racc offs s to s' H Lo; [discriminate|].
+  cbn [pre_loop] in H.
+  destruct (sock_read 1 s) as [r s1] eqn:R.
+  destruct r as [[|bt [|b2 l0]]|]; try discriminate.
+  apply sock_read_some in R. cbn [app] in R.
+  destruct (negb (isdigit bt) && negb (bt =? SOH)%N) eqn:E1; [discriminate|].
+  destruct (p_max p <=? offs) eqn:E2; [discriminate|].
+  destruct (negb (bt =? SOH)%N && (S offs <? p_max p)) eqn:E3.
+  - apply andb_true_iff in E3. destruct E3 as [E3 E4]. apply Nat.ltb_lt in E4.
+    rewrite E3 in E1. rewrite andb_true_r in E1. apply negb_false_iff in E1.
+    destruct (IH p (bt :: racc) (S offs) s1 to s' H E4) as (y & l & Et & Ec & Hy & Hl).
+    exists (bt :: y), l. split; [|split; [|split]].
+    + rewrite Et. cbn [rev]. rewrite <- !app_assoc. reflexivity.
+    + rewrite R, Ec. reflexivity.
+    + constructor; assumption.
+    + cbn [length]. destruct Hl as [Hl|Hl]; [left; exact Hl | right; lia].
+  - injection H as <- <-. exists [], bt. split; [reflexivity|]. split; [exact R|]. split; [constructor|].
+    + apply andb_false_iff in E3. destruct E3 as [E3|E3].
+      * left. apply negb_false_iff in E3. apply N.eqb_eq in E3. exact E3.
+      * right. apply Nat.ltb_ge in E3. cbn [length]. lia.
+Qed.
+
+(* one call of read: out of bytes, IllegalMessage from the loop, or the two extract_element calls on a
+   prefix [to] of the stream that extends the first _bg_sz bytes by digits and one last byte *)
+Lemma read_msg_cases : forall p s, safe_params p = true ->
+  fst (read_msg p s) = OEos \/ (exists t, fst (read_msg p s) = OIllegal t) \/
+  exists to s2 y l, fst (read_msg p s) = fst (read_fields p to s2) /\
+    concat s = to ++ concat s2 /\ to = firstn (bg_sz p) (concat s) ++ y ++ [l] /\
+    bg_sz p <= length (concat s) /\
+    Forall (fun b => isdigit b = true) y /\ (l = SOH \/ length to = p_max p).
+Proof.
+  intros p s W. destruct (safe_inv p W) as (_ & _ & Mx & _).
+  unfold read_msg.
+  destruct (le_lt_dec (bg_sz p) (length (concat s))) as [L|L].
+  2:{ rewrite (sock_read_short s _ L). left. reflexivity. }
+  destruct (sockread_chunking_lemma s (bg_sz p) L) as [s1 [E1 C1]]. rewrite E1.
+  destruct (p_max p <? bg_sz p) eqn:E0; [apply Nat.ltb_lt in E0; lia|].
+  pose proof (pre_loop_shape (p_max p) p (rev (firstn (bg_sz p) (concat s))) (bg_sz p) s1 ltac:(lia) ltac:(lia)) as Sh.
+  destruct (pre_loop (p_max p) p (rev (firstn (bg_sz p) (concat s))) (bg_sz p) s1) as [r s2] eqn:P.
+  cbn [fst] in Sh.
+  destruct r as [to| |buf| |]; cbn [fst]; try contradiction.
+  - right. right.
+    destruct (pre_loop_done_inv _ _ _ _ _ _ _ P ltac:(lia)) as (y & l & Et & Ec & Hy & Hl).
+    rewrite rev_involutive in Et.
+    exists to, s2, y, l. repeat split; try assumption.
+    + rewrite <- (firstn_skipn (bg_sz p) (concat s)) at 1. rewrite <- C1, Ec, Et.
+      rewrite <- !app_assoc. reflexivity.
+    + destruct Hl as [Hl|Hl]; [left; exact Hl|right].
+      rewrite Et, !app_length, firstn_length_le by exact L. cbn [length]. lia.
+  - left. reflexivity.
+  - right. left. eexists. reflexivity.
+Qed.
+
+Lemma Forall_app_l : forall (P : N -> Prop) a b, Forall P (a ++ b) -> Forall P a.
+Proof. intros P a b H. apply Forall_app in H. tauto. Qed.
+
+Lemma Forall_skipn' : forall (P : N -> Prop) n l, Forall P l -> Forall P (skipn n l).
+Proof.
+  intros P n. induction n as [|n IH]; intros l H; [exact H|].
+  destruct l as [|x l]; [constructor|]. inversion H; subst. cbn [skipn]. apply IH. assumption.
+Qed.
+
+(* if the stream starts with Z (at least _bg_sz bytes, fitting msg_buf) and Z has no SOH from
+   offset _bg_sz on, then the loop cannot stop inside Z: [to] extends Z *)
+Lemma to_covers : forall p (S0 Z tail to rest y : list N) l,
+  S0 = Z ++ tail -> S0 = to ++ rest -> to = firstn (bg_sz p) S0 ++ y ++ [l] ->
+  bg_sz p <= length Z -> length Z <= p_max p ->
+  Forall (fun b => nosoh b = true) (skipn (bg_sz p) Z) ->
+  (l = SOH \/ length to = p_max p) ->
+  exists more, to = Z ++ more.
+Proof.
+  intros p S0 Z tail to rest y l HZ Hto Et Lb Lm Hns Hl.
+  destruct (le_lt_dec (length Z) (length to)) as [L|L].
+  - assert (E : Z ++ tail = to ++ rest) by (rewrite <- HZ; exact Hto).
+    destruct (app_eq_split2 Z tail to rest E L) as [a2 [E1 _]]. exists a2. exact E1.
+  - exfalso. destruct Hl as [Hl|Hl]; [|lia].
+    assert (E : to ++ rest = Z ++ tail) by (rewrite <- HZ; symmetry; exact Hto).
+    destruct (app_eq_split2 to rest Z tail E ltac:(lia)) as [a2 [E1 _]].
+    assert (Lf : length (firstn (bg_sz p) S0) = bg_sz p).
+    { apply firstn_length_le. rewrite HZ, app_length. lia. }
+    rewrite E1, Et in Hns. rewrite <- !app_assoc in Hns.
+    rewrite <- Lf in Hns at 1. rewrite skipn_app_exact in Hns.
+    apply Forall_app in Hns. destruct Hns as [_ Hns]. cbn [app] in Hns.
+    subst l. inversion Hns as [|? ? Hc _]; subst. discriminate Hc.
+Qed.
+
+Lemma ee_tag_overlong : forall u p x ii rtag,
+  Forall (fun b => isdigit b = true) u -> p_tagcap p <= length rtag + length u ->
+  length rtag < p_tagcap p -> 1 <= p_valcap p ->
+  exists t v, ee_tag p (u ++ x) ii rtag = EERet 0 t v.
+Proof.
+  induction u as [|d u IH]; intros p x ii rtag Hu L Lt Lv; [cbn [length] in L; lia|].
+  inversion Hu as [|? ? Hd Hu']; subst. cbn [app ee_tag]. rewrite Hd.
+  destruct (length rtag =? p_tagcap p - 1) eqn:E0.
+  - unfold ee_term.
+    destruct (p_tagcap p <=? length rtag) eqn:E1; [apply Nat.leb_le in E1; lia|].
+    destruct (p_valcap p <=? length (@nil N)) eqn:E2; [apply Nat.leb_le in E2; cbn [length] in E2; lia|].
+    do 2 eexists. reflexivity.
+  - apply Nat.eqb_neq in E0.
+    destruct (p_tagcap p <=? length rtag) eqn:E1; [apply Nat.leb_le in E1; lia|].
+    apply IH; [assumption | cbn [length] in *; lia | cbn [length]; lia | assumption].
+Qed.
+
+Lemma ee_val_overlong : forall u p x ii rtag rval,
+  Forall (fun b => nosoh b = true) u -> p_valcap p <= length rval + length u ->
+  length rval < p_valcap p -> length rtag < p_tagcap p ->
+  exists t v, ee_val p (u ++ x) ii rtag rval = EERet 0 t v.
+Proof.
+  induction u as [|b u IH]; intros p x ii rtag rval Hu L Lv Lt; [cbn [length] in L; lia|].
+  inversion Hu as [|? ? Hb Hu']; subst. cbn [app ee_val]. unfold nosoh in Hb.
+  destruct (b =? SOH)%N; [discriminate|].
+  destruct (length rval =? p_valcap p - 1) eqn:E0.
+  - unfold ee_term.
+    destruct (p_tagcap p <=? length rtag) eqn:E1; [apply Nat.leb_le in E1; lia|].
+    destruct (p_valcap p <=? length rval) eqn:E2; [apply Nat.leb_le in E2; lia|].
+    do 2 eexists. reflexivity.
+  - apply Nat.eqb_neq in E0.
+    destruct (p_valcap p <=? length rval) eqn:E1; [apply Nat.leb_le in E1; lia|].
+    apply IH; [assumption | cbn [length] in *; lia | cbn [length]; lia | assumption].
+Qed.
+
+Definition illegal_or_eos (o : outcome) : Prop :=
+  match o with OEos | OIllegal _ => True | _ => False end.
+
+(* the common part: a stream starting with Z on which extract_element fails (first call, or second
+   call after "8=<begin>|") *)
+Lemma long_field_read : forall p s Z tail,
+  safe_params p = true -> concat s = Z ++ tail ->
+  bg_sz p <= length Z -> length Z <= p_max p ->
+  Forall (fun b => nosoh b = true) (skipn (bg_sz p) Z) ->
+  (forall more s2, illegal_or_eos (fst (read_fields p (Z ++ more) s2))) ->
+  illegal_or_eos (fst (read_msg p s)).
+Proof.
+  intros p s Z tail W C Lb Lm Hns Hf.
+  destruct (read_msg_cases p s W) as [E|[[t E]|(to & s2 & y & l & E & Ec & Et & _ & _ & Hl)]].
+  - rewrite E. exact I.
+  - rewrite E. exact I.
+  - rewrite E.
+    destruct (to_covers p (concat s) Z tail to (concat s2) y l C Ec Et Lb Lm Hns Hl) as [more Em].
+    rewrite Em. apply Hf.
+Qed.
+
+Lemma long_tag1_read : forall p s t tail,
+  wf_params p = true -> concat s = t ++ tail ->
+  Forall (fun b => isdigit b = true) t ->
+  p_tagcap p <= length t -> bg_sz p <= length t -> length t <= p_max p ->
+  illegal_or_eos (fst (read_msg p s)).
+Proof.
+  intros p s t tail W C Ht Lt Lb Lm. pose proof (wf_safe p W) as Sf.
+  destruct (safe_inv p Sf) as (Tc & Vc & _ & _).
+  apply (long_field_read p s t tail Sf C Lb Lm).
+  - apply Forall_skipn'. eapply Forall_impl; [|exact Ht]. intros b Hb. apply digit_nosoh, Hb.
+  - intros more s2. unfold read_fields, extract_element.
+    destruct (ee_tag_overlong t p more 0 [] Ht ltac:(cbn [length]; lia) ltac:(cbn [length]; lia) Vc) as (tg & vl & E).
+    rewrite E. cbn [Nat.eqb fst]. exact I.
+Qed.
+
+Lemma long_val1_read : forall p s v tail,
+  wf_params p = true -> concat s = [56; 61]%N ++ v ++ tail ->
+  Forall (fun b => nosoh b = true) v ->
+  p_valcap p <= length v -> bg_sz p <= length v + 2 -> length v + 2 <= p_max p ->
+  illegal_or_eos (fst (read_msg p s)).
+Proof.
+  intros p s v tail W C Hv Lv Lb Lm. pose proof (wf_safe p W) as Sf.
+  destruct (wf_inv p W) as (_ & _ & Tc & _). destruct (safe_inv p Sf) as (_ & Vc & _ & _).
+  apply (long_field_read p s ([56; 61]%N ++ v) tail Sf).
+  - rewrite C, <- app_assoc. reflexivity.
+  - rewrite app_length. cbn [length]. lia.
+  - rewrite app_length. cbn [length]. lia.
+  - apply Forall_skipn'. constructor; [reflexivity|]. constructor; [reflexivity | exact Hv].
+  - intros more s2. unfold read_fields, extract_element.
+    replace (([56; 61]%N ++ v) ++ more) with ([56%N] ++ EQS :: (v ++ more)) by (rewrite <- app_assoc; reflexivity).
+    rewrite ee_tag_run; [|repeat constructor|cbn [length]; lia].
+    destruct (ee_val_overlong v p more (S (0 + length [56%N])) (rev [56%N] ++ []) [] Hv
+                ltac:(cbn [length]; lia) ltac:(cbn [length]; lia) ltac:(cbn [length app rev]; lia)) as (tg & vl & E).
+    rewrite E. cbn [Nat.eqb fst]. exact I.
+Qed.
+
+(* second field: after a correct "8=<begin>|" *)
+Lemma first_field_ok : forall p rest0,
+  wf_params p = true ->
+  extract_element p ([56; 61]%N ++ p_begin p ++ [SOH] ++ rest0) =
+  EERet (length (p_begin p) + 3) [56%N] (p_begin p).
+Proof.
+  intros p rest0 W. destruct (wf_inv p W) as (Bs & _ & Tc & Bl & _).
+  replace ([56; 61]%N ++ p_begin p ++ [SOH] ++ rest0) with ([56%N] ++ EQS :: p_begin p ++ SOH :: rest0) by reflexivity.
+  rewrite ee_field; [|repeat constructor|cbn [length]; lia|exact Bs|exact Bl].
+  f_equal. cbn [length]. lia.
+Qed.
+
+Lemma read_fields_second : forall p rest0 s2,
+  wf_params p = true ->
+  (exists t v, extract_element p rest0 = EERet 0 t v) ->
+  illegal_or_eos (fst (read_fields p ([56; 61]%N ++ p_begin p ++ [SOH] ++ rest0) s2)).
+Proof.
+  intros p rest0 s2 W (tg & vl & E). destruct (wf_inv p W) as (_ & Bn & _).
+  unfold read_fields. rewrite (first_field_ok p rest0 W).
+  replace (length (p_begin p) + 3 =? 0) with false by (symmetry; apply Nat.eqb_neq; lia).
+  cbn [head_is]. rewrite N.eqb_refl. cbn [negb].
+  rewrite (cstr_nonul _ Bn), list_eqb_refl. cbn [negb].
+  replace (length (p_begin p) + 3) with (length ([56; 61]%N ++ p_begin p ++ [SOH]))
+    by (rewrite !app_length; cbn [length]; lia).
+  replace ([56; 61]%N ++ p_begin p ++ [SOH] ++ rest0) with (([56; 61]%N ++ p_begin p ++ [SOH]) ++ rest0)
+    by (rewrite <- !app_assoc; reflexivity).
+  rewrite skipn_app_exact, E. cbn [Nat.eqb fst]. exact I.
+Qed.
+
+Lemma long_tag2_read : forall p s t tail,
+  wf_params p = true -> concat s = [56; 61]%N ++ p_begin p ++ [SOH] ++ t ++ tail ->
+  Forall (fun b => isdigit b = true) t ->
+  p_tagcap p <= length t -> 3 <= length t -> length (p_begin p) + 3 + length t <= p_max p ->
+  illegal_or_eos (fst (read_msg p s)).
+Proof.
+  intros p s t tail W C Ht Lt L3 Lm. pose proof (wf_safe p W) as Sf.
+  destruct (safe_inv p Sf) as (Tc & Vc & _ & _).
+  set (Z := [56; 61]%N ++ p_begin p ++ [SOH] ++ t).
+  assert (LZ : length Z = length (p_begin p) + 3 + length t).
+  { unfold Z. rewrite !app_length. cbn [length]. lia. }
+  apply (long_field_read p s Z tail Sf).
+  - rewrite C. unfold Z. rewrite <- !app_assoc. reflexivity.
+  - rewrite LZ. unfold bg_sz. lia.
+  - lia.
+  - assert (EZ : Z = ([56; 61]%N ++ p_begin p ++ [SOH] ++ firstn 3 t) ++ skipn 3 t).
+    { unfold Z. rewrite <- !app_assoc. rewrite (firstn_skipn 3 t). reflexivity. }
+    assert (L0 : length ([56; 61]%N ++ p_begin p ++ [SOH] ++ firstn 3 t) = bg_sz p).
+    { rewrite !app_length, firstn_length_le by lia. cbn [length]. unfold bg_sz. lia. }
+    rewrite EZ, <- L0, skipn_app_exact.
+    apply Forall_skipn'. eapply Forall_impl; [|exact Ht]. intros b Hb. apply digit_nosoh, Hb.
+  - intros more s2.
+    replace (Z ++ more) with ([56; 61]%N ++ p_begin p ++ [SOH] ++ (t ++ more))
+      by (unfold Z; rewrite <- !app_assoc; reflexivity).
+    apply read_fields_second; [exact W|]. unfold extract_element.
+    apply ee_tag_overlong; [exact Ht | cbn [length]; lia | cbn [length]; lia | exact Vc].
+Qed.
+
+Lemma long_val2_read : forall p s w tail,
+  wf_params p = true -> concat s = header (p_begin p) ++ w ++ tail ->
+  Forall (fun b => nosoh b = true) w ->
+  p_valcap p <= length w -> 1 <= length w -> length (p_begin p) + 5 + length w <= p_max p ->
+  illegal_or_eos (fst (read_msg p s)).
+Proof.
+  intros p s w tail W C Hw Lv L1 Lm. pose proof (wf_safe p W) as Sf.
+  destruct (wf_inv p W) as (_ & _ & Tc & _). destruct (safe_inv p Sf) as (_ & Vc & _ & _).
+  set (Z := header (p_begin p) ++ w).
+  assert (LZ : length Z = length (p_begin p) + 5 + length w).
+  { unfold Z. rewrite app_length, header_length. lia. }
+  apply (long_field_read p s Z tail Sf).
+  - rewrite C. unfold Z. rewrite <- app_assoc. reflexivity.
+  - rewrite LZ. unfold bg_sz. lia.
+  - lia.
+  - assert (EZ : Z = (header (p_begin p) ++ firstn 1 w) ++ skipn 1 w).
+    { unfold Z. rewrite <- app_assoc. rewrite (firstn_skipn 1 w). reflexivity. }
+    assert (L0 : length (header (p_begin p) ++ firstn 1 w) = bg_sz p).
+    { rewrite app_length, firstn_length_le by lia. rewrite bg_header. reflexivity. }
+    rewrite EZ, <- L0, skipn_app_exact. apply Forall_skipn'. exact Hw.
+  - intros more s2.
+    replace (Z ++ more) with ([56; 61]%N ++ p_begin p ++ [SOH] ++ ([57%N] ++ EQS :: (w ++ more))).
+    2:{ unfold Z, header, EQS, SOH. rewrite <- !app_assoc. reflexivity. }
+    apply read_fields_second; [exact W|]. unfold extract_element.
+    rewrite ee_tag_run; [|repeat constructor|cbn [length]; lia].
+    apply ee_val_overlong; [exact Hw | cbn [length]; lia | cbn [length]; lia | cbn [length app rev]; lia].
+Qed.
+
+(* run level: after any valid frames, in any chunking.  The four places where an over-long field
+   can stand: first tag, first value, second tag, second value (BodyLength). *)
+Definition long_field_rest (p : params) (rest : list N) : Prop :=
+  (exists t tail, rest = t ++ tail /\ Forall (fun b => isdigit b = true) t /\
+                  p_tagcap p <= length t /\ bg_sz p <= length t /\ length t <= p_max p) \/
+  (exists v tail, rest = [56; 61]%N ++ v ++ tail /\ Forall (fun b => nosoh b = true) v /\
+                  p_valcap p <= length v /\ bg_sz p <= length v + 2 /\ length v + 2 <= p_max p) \/
+  (exists t tail, rest = [56; 61]%N ++ p_begin p ++ [SOH] ++ t ++ tail /\
+                  Forall (fun b => isdigit b = true) t /\
+                  p_tagcap p <= length t /\ 3 <= length t /\ length (p_begin p) + 3 + length t <= p_max p) \/
+  (exists w tail, rest = header (p_begin p) ++ w ++ tail /\ Forall (fun b => nosoh b = true) w /\
+                  p_valcap p <= length w /\ 1 <= length w /\ length (p_begin p) + 5 + length w <= p_max p).
+
+Lemma long_field_lemma : forall p msgs chunks rest closed,
+  wf_params p = true -> Forall (fun m => frame_ok p m = true) msgs ->
+  concat chunks = concat msgs ++ rest -> long_field_rest p rest ->
+  exists e, run p chunks closed = (msgs, e) /\
+            match e with EWait | EPeerReset | EIllegal _ => True | _ => False end.
+Proof.
+  intros p msgs chunks rest closed W Hv C HL.
+  assert (R : illegal_or_eos (fst (read_msg p [rest]))).
+  { assert (C1 : concat [rest] = rest) by (cbn [concat]; apply app_nil_r).
+    destruct HL as [(t & tail & E0 & H1 & H2 & H3 & H4)|[(v & tail & E0 & H1 & H2 & H3 & H4)|
+                   [(t & tail & E0 & H1 & H2 & H3 & H4)|(w & tail & E0 & H1 & H2 & H3 & H4)]]];
+      subst rest.
+    - eapply long_tag1_read; eassumption.
+    - eapply long_val1_read; eassumption.
+    - eapply long_tag2_read; eassumption.
+    - eapply long_val2_read; eassumption. }
+  exists (ending_of (fst (read_msg p [rest])) closed). split.
+  - apply run_after_valid; try assumption.
+    destruct (fst (read_msg p [rest])); cbn in R; try contradiction; reflexivity.
+  - destruct (fst (read_msg p [rest])); cbn in R |- *; try contradiction; try exact I.
+    destruct closed; exact I.
+Qed.
+
+(* ========================================================================================== *)
 (* E. where the faithful model violates the property: witnesses                               *)
 
 From Coq Require Import String Ascii.
@@ -1223,10 +1686,10 @@ Definition P42 : params := std_params fix42.
 Definition hdr42 : list N := bs "8=FIX.4.2" ++ [SOH] ++ bs "9=".
 Definition trl0 : list N := bs "10=000" ++ [SOH].
 
-(* F19a: 32 digits and SOH: the terminating NUL of tag[32] is written out of bounds; 31 digits are refused cleanly *)
+(* F19a: 32 digits and SOH (the 32nd digit does not fit tag[32]); 31 digits *)
 Definition w_tag32 : list N := repeat 55%N 32 ++ [SOH].
 Definition w_tag31 : list N := repeat 55%N 31 ++ [SOH].
-(* F19b: a first / second field value of 2048 bytes: val[2048] cannot hold its NUL; 2047 bytes are fine *)
+(* F19b: a first / second field value of 2048 bytes does not fit val[2048]; 2047 bytes do *)
 Definition w_val1 (n : N) : list N := bs "8=" ++ repeat 49%N (N.to_nat n) ++ [SOH].
 Definition w_val2 (n : N) : list N := hdr42 ++ repeat 49%N (N.to_nat n) ++ [SOH].
 (* F19c: BodyLength 2^32 + 5 is read as 5 *)
@@ -1239,32 +1702,34 @@ Definition w_tag93 : list N := bs "8=FIX.4.2" ++ [SOH] ++ bs "93=5" ++ [SOH] ++ 
 (* BeginString is compared as a C string *)
 Definition w_nul : list N := bs "8=FIX.4.2" ++ [0%N; SOH] ++ bs "9=5" ++ [SOH] ++ bs "35=0" ++ [SOH] ++ trl0.
 
-Lemma overflow_refuted_lemma :
-  (* tag[32] *)
-  (run P42 [w_tag32] true = ([], EOob) /\ model_ok P42 [w_tag32] true = false /\
-   run P42 [w_tag31] true = ([], EIllegal w_tag31)) /\
-  (* val[2048], first and second field *)
-  (run P42 [w_val1 2048] true = ([], EOob) /\ model_ok P42 [w_val1 2048] true = false /\
-   run P42 [w_val1 2047] true = ([], EBadVersion (repeat 49%N (N.to_nat 2047)))) /\
-  (run P42 [w_val2 2048] true = ([], EOob) /\ model_ok P42 [w_val2 2048] true = false /\
-   exists n, run P42 [w_val2 2047] true = ([], EBadLen n)) /\
-  (* 32-bit wrap of BodyLength: an oversized BodyLength is accepted and a frame of 5 bytes handed on *)
-  (run P42 [w_wrap] true = ([w_wrap], EPeerReset) /\
-   spec_frame fix42 (len_limit P42) w_wrap = FBad /\ model_ok P42 [w_wrap] true = false).
-Proof.
-  repeat split; try (vm_compute; reflexivity).
-  eexists. vm_compute. reflexivity.
-Qed.
+(* before d48d8ce extract_element had no bounds: 32 digits + SOH wrote the NUL of tag[32] out of
+   bounds (31 did not), a value of 2048 bytes that of val[2048] (2047 did not).  With the repaired
+   extract_element the same streams end in IllegalMessage, nothing is handed on, the oracle holds. *)
+Lemma overflow_orig_refuted_lemma :
+  (extract_element_orig P42 w_tag32 = EEOob SiteTag /\
+   extract_element_orig P42 w_tag31 = EERet 0 (repeat 55%N 31) [] /\
+   extract_element_orig P42 (w_val1 2048) = EEOob SiteVal /\
+   extract_element_orig P42 (w_val1 2047) = EERet (N.to_nat 2050) [56%N] (repeat 49%N (N.to_nat 2047))) /\
+  (run P42 [w_tag32] true = ([], EIllegal w_tag32) /\ model_ok P42 [w_tag32] true = true) /\
+  (run P42 [w_val1 2048] true = ([], EIllegal (w_val1 2048)) /\ model_ok P42 [w_val1 2048] true = true) /\
+  (run P42 [w_val2 2048] true = ([], EIllegal (w_val2 2048)) /\ model_ok P42 [w_val2 2048] true = true).
+Proof. repeat split; vm_compute; reflexivity. Qed.
+
+(* not repaired: 32-bit wrap of BodyLength: an oversized BodyLength is accepted and a frame of 5 bytes handed on *)
+Lemma bodylength_wrap_refuted_lemma :
+  run P42 [w_wrap] true = ([w_wrap], EPeerReset) /\
+  spec_frame fix42 (len_limit P42) (max_width P42) w_wrap = FBad /\ model_ok P42 [w_wrap] true = false.
+Proof. repeat split; vm_compute; reflexivity. Qed.
 
 Lemma lenient_preamble_refuted_lemma :
   (run P42 [w_colon] true = ([w_colon], EPeerReset) /\
-   spec_frame fix42 (len_limit P42) w_colon = FBad /\ model_ok P42 [w_colon] true = false) /\
+   spec_frame fix42 (len_limit P42) (max_width P42) w_colon = FBad /\ model_ok P42 [w_colon] true = false) /\
   (run P42 [w_tag88] true = ([w_tag88], EPeerReset) /\
-   spec_frame fix42 (len_limit P42) w_tag88 = FBad /\ model_ok P42 [w_tag88] true = false) /\
+   spec_frame fix42 (len_limit P42) (max_width P42) w_tag88 = FBad /\ model_ok P42 [w_tag88] true = false) /\
   (run P42 [w_tag93] true = ([w_tag93], EPeerReset) /\
-   spec_frame fix42 (len_limit P42) w_tag93 = FBad /\ model_ok P42 [w_tag93] true = false) /\
+   spec_frame fix42 (len_limit P42) (max_width P42) w_tag93 = FBad /\ model_ok P42 [w_tag93] true = false) /\
   (run P42 [w_nul] true = ([w_nul], EPeerReset) /\
-   spec_frame fix42 (len_limit P42) w_nul = FBad /\ model_ok P42 [w_nul] true = false).
+   spec_frame fix42 (len_limit P42) (max_width P42) w_nul = FBad /\ model_ok P42 [w_nul] true = false).
 Proof. repeat split; vm_compute; reflexivity. Qed.
 
 (* ---- non-vacuity --------------------------------------------------------------------------- *)
